@@ -68,7 +68,8 @@ PROPS = {
     ),
     "C10": dict(
         level="exploration",
-        rule="case = (builder, logical input) rebuilt R times in-process (Go re-randomises map iteration), under P permutations of the entry slice and F fragmentations of the source reader; all (link,size) results must be identical; write-order hashes are recorded; signature = (builder, input class, variation kind); non-trivial iff >= 2 blocks or >= 2 entries",
+        order_pass=True,
+        rule="case = (builder, logical input) rebuilt R times in-process (Go re-randomises map iteration), under P permutations of the entry slice and F fragmentations of the source reader; all (link,size) results must be identical; write-order hashes are recorded; every case is evaluated a second time in worker processes that enumerate the cases in reverse order and the results are compared across processes (no dependence on process history); signature = (builder, input class, variation kind); non-trivial iff >= 2 blocks or >= 2 entries",
         assumptions=BASE_ASSUME,
         require={"any": {"builds_compared": 200, "max_distinct_write_orders": 2}},
     ),
